@@ -288,6 +288,17 @@ struct Run {
     steps: Vec<String>,
     error: Option<String>,
     markers: BTreeSet<&'static str>,
+    /// protocol-level segments of the operation stream (S2 against the extracted protocol model)
+    segs: Vec<Seg>,
+}
+
+/// a protocol-level event and the part ops[from..to] of the recorded stream it produced.
+/// kind: "create" | "open <p> <vq>" | "txn1" | "txn2" | "nd" | "abort" | "compact" | "close"
+#[derive(Clone, Debug)]
+struct Seg {
+    kind: String,
+    from: usize,
+    to: usize,
 }
 
 struct Live {
@@ -455,6 +466,8 @@ fn apply_real(w: &redb::WriteTransaction, op: &TOp) -> Result<(), String> {
 /// run one transaction on the real crate and on the spec; records marks
 fn run_txn(run: &mut Run, live: &mut Live, t: &Txn) -> Result<(), String> {
     let e = |x: &dyn std::fmt::Debug| format!("{x:?}");
+    sync_ops(run, live);
+    let seg_from = run.ops.len();
     let db = live.db.as_ref().unwrap();
     let mut w = db.begin_write().map_err(|x| e(&x))?;
     if !t.durable {
@@ -544,6 +557,7 @@ fn run_txn(run: &mut Run, live: &mut Live, t: &Txn) -> Result<(), String> {
     if t.abort {
         w.abort().map_err(|x| e(&x))?;
         sync_ops(run, live);
+        run.segs.push(Seg { kind: "abort".into(), from: seg_from, to: run.ops.len() });
         run.markers.insert("abort");
         return Ok(());
     }
@@ -554,6 +568,14 @@ fn run_txn(run: &mut Run, live: &mut Live, t: &Txn) -> Result<(), String> {
     run.marks.requested.push((run.ops.len(), idx));
     w.commit().map_err(|x| e(&x))?;
     sync_ops(run, live);
+    let kind = if !t.durable {
+        "nd"
+    } else if t.two_phase || t.quick_repair {
+        "txn2"
+    } else {
+        "txn1"
+    };
+    run.segs.push(Seg { kind: kind.into(), from: seg_from, to: run.ops.len() });
     if t.durable {
         run.marks.acked.push((run.ops.len(), idx));
         live.pending_nondurable = false;
@@ -592,17 +614,24 @@ fn do_step(run: &mut Run, live: &mut Live, step: &Step) -> Result<(), String> {
             for e in live.ephemeral.iter_mut() {
                 *e = None;
             }
+            sync_ops(run, live);
+            let seg_from = run.ops.len();
             let db = live.db.take().unwrap();
             drop(db);
             sync_ops(run, live);
+            run.segs.push(Seg { kind: "close".into(), from: seg_from, to: run.ops.len() });
             // a clean close persists everything committed so far
             let last = run.cps.len() - 1;
             run.marks.acked.push((run.ops.len(), last));
             live.pending_nondurable = false;
             let backend = live.handle.handle();
+            let closed_hdr: Vec<u8> = live.handle.0.lock().unwrap().data.iter().take(HDR).copied().collect();
+            let seg_from = run.ops.len();
             let db = open_db(&run.cfg, backend)?;
+            let kind = open_seg_kind(&closed_hdr, &db);
             live.db = Some(db);
             sync_ops(run, live);
+            run.segs.push(Seg { kind, from: seg_from, to: run.ops.len() });
             run.markers.insert("clean-reopen");
             live_check(run, live, "reopen")?;
         }
@@ -610,8 +639,13 @@ fn do_step(run: &mut Run, live: &mut Live, step: &Step) -> Result<(), String> {
             for e in live.ephemeral.iter_mut() {
                 *e = None;
             }
+            sync_ops(run, live);
+            let seg_from = run.ops.len();
             let db = live.db.as_mut().unwrap();
-            match catch(|| db.compact()) {
+            let res = catch(|| db.compact());
+            sync_ops(run, live);
+            run.segs.push(Seg { kind: "compact".into(), from: seg_from, to: run.ops.len() });
+            match res {
                 Ok(Ok(_)) => {
                     run.markers.insert("compact");
                     // compaction commits durably; content is unchanged
@@ -670,6 +704,7 @@ fn run_history(
         steps: vec![],
         error: None,
         markers: BTreeSet::new(),
+        segs: vec![],
     };
     let db = match open_db(&cfg, backend) {
         Ok(db) => db,
@@ -683,6 +718,12 @@ fn run_history(
     let mut live = Live { db: Some(db), handle, spec: spec.clone(), saved, ephemeral: vec![], pending_nondurable: false };
     sync_ops(&mut run, &live);
     run.ready_pos = run.ops.len();
+    let kind = if run.start_image.len() >= HDR {
+        open_seg_kind(&run.start_image[..HDR], live.db.as_ref().unwrap())
+    } else {
+        "create".to_string()
+    };
+    run.segs.push(Seg { kind, from: 0, to: run.ready_pos });
     run.cp_digests.push(spec.digest());
     run.cps.push(spec);
     run.marks.requested.push((0, 0));
@@ -712,8 +753,11 @@ fn run_history(
     live.ephemeral.clear();
     let db = live.db.take().unwrap();
     if final_close {
+        sync_ops(&mut run, &live);
+        let seg_from = run.ops.len();
         drop(db);
         sync_ops(&mut run, &live);
+        run.segs.push(Seg { kind: "close".into(), from: seg_from, to: run.ops.len() });
         let last = run.cps.len() - 1;
         run.marks.acked.push((run.ops.len(), last));
         run.markers.insert("final-close");
@@ -1015,6 +1059,7 @@ struct Stats {
     recovery_images: u64,
     continuation_images: u64,
     windows: u64,
+    protocol_segments: u64,
     recover_cases: u64,
     nontrivial: BTreeSet<String>,
     markers: BTreeMap<String, u64>,
@@ -1025,6 +1070,8 @@ struct Stats {
 }
 
 struct Out {
+    /// S2 against the extracted protocol model: segments of the real stream with their protocol-level kind
+    protocol: String,
     windows: String,
     recover_cases: String,
     recover_impl: String,
@@ -1263,6 +1310,7 @@ fn crash_oracle(cx: &mut Ctx, r: &mut Rng, run: &Run, budget: usize, depth: usiz
                     if want_ver {
                         recover_case(cx.out, &run.cfg, &image, &Ok(&o));
                     }
+                    emit_open_protocol(cx.out, &format!("h{}:{}:open@{}#{}", cx.hist, depth, k, used), &image, &o);
                     match &o.integrity {
                         Ok(true) => {}
                         Ok(false) => cx.out.stats.integrity_false += 1,
@@ -1322,6 +1370,7 @@ fn crash_oracle(cx: &mut Ctx, r: &mut Rng, run: &Run, budget: usize, depth: usiz
                                     let b = cx.cont_budget.min(if cx.thorough { 60 } else { 30 });
                                     cx.cont_budget -= b;
                                     crash_oracle(cx, &mut r2, &cont, b, depth + 1, &lin);
+                                    emit_protocol(cx.out, &format!("h{}:cont@{}", cx.hist, k), &cont);
                                     if cx.out.stats.windows < cx.window_cap {
                                         let tag = format!("h{}:cont@{}", cx.hist, k);
                                         if let Err(e) = emit_windows(cx.out, &run.cfg, &tag, &cont.start_image, &cont.ops, 0) {
@@ -1388,6 +1437,7 @@ fn recovery_crash(
         steps: vec![],
         error: None,
         markers: BTreeSet::new(),
+        segs: vec![],
     };
     let n = rrun.ops.len();
     let mut points: Vec<usize> = (0..n).filter(|i| matches!(rrun.ops[*i], Op::Sync)).collect();
@@ -1416,6 +1466,7 @@ fn recovery_crash(
                     if want_ver {
                         recover_case(cx.out, &run.cfg, &img2, &Ok(&o));
                     }
+                    emit_open_protocol(cx.out, &format!("h{}:rec{}:open@{}", cx.hist, level, k), &img2, &o);
                     if let Err(e) = &o.integrity {
                         violation(cx, "c01-integrity-error", format!("check_integrity failed: {e}"), d2.clone());
                     }
@@ -1439,6 +1490,108 @@ fn recovery_crash(
             }
         }
     }
+}
+
+// ------------------------------------------------------------------------------------------ S2 protocol
+
+/// index of the slot whose roots the opened database serves (the primary when both slots carry them)
+fn served_slot(hdr: &[u8], served: &(Option<[u8; 32]>, Option<[u8; 32]>)) -> Option<usize> {
+    let r0 = slot_roots(hdr, 0);
+    let r1 = slot_roots(hdr, 1);
+    let eq = |a: &Option<[u8; 32]>, b: &Option<[u8; 32]>| match (a, b) {
+        (None, None) => true,
+        (Some(x), Some(y)) => x[..24] == y[..24],
+        _ => false,
+    };
+    let m0 = eq(&served.0, &r0.0) && eq(&served.1, &r0.1);
+    let m1 = eq(&served.0, &r1.0) && eq(&served.1, &r1.1);
+    match (m0, m1) {
+        (true, true) => Some((hdr[GOD] & 1) as usize),
+        (true, false) => Some(0),
+        (false, true) => Some(1),
+        (false, false) => None,
+    }
+}
+
+/// "open <p> <vq>": which slot of the opened image the real crate serves, and whether the other slot's
+/// checksum is valid -- the abstract inputs of the protocol model's recovery run
+fn open_seg_kind_served(hdr: &[u8], served: &(Option<[u8; 32]>, Option<[u8; 32]>)) -> String {
+    let r0 = slot_roots(hdr, 0);
+    let r1 = slot_roots(hdr, 1);
+    if r0.0.map(|x| x[..24].to_vec()) == r1.0.map(|x| x[..24].to_vec()) && r0.1.map(|x| x[..24].to_vec()) == r1.1.map(|x| x[..24].to_vec()) {
+        // both slots name the same trees (e.g. after a repair commit): the real crate cannot tell which one it
+        // serves; the driver resolves the index with the model's slot selection (both commits verify)
+        return format!("open * {} {}", slot_valid(hdr, 0) as u8, slot_valid(hdr, 1) as u8);
+    }
+    match served_slot(hdr, served) {
+        Some(p) => format!("open {} {}", p, slot_valid(hdr, 1 - p) as u8),
+        None => "open ? 0".to_string(),
+    }
+}
+
+fn open_seg_kind(hdr: &[u8], db: &Database) -> String {
+    match catch(|| db.verif_c01_served()) {
+        Ok(Ok(s)) => open_seg_kind_served(hdr, &(s.0, s.1)),
+        _ => "open ? 0".to_string(),
+    }
+}
+
+fn write_proto_ops(out: &mut String, ops: &[Op]) {
+    for op in ops {
+        match op {
+            Op::Write { off: 0, data } if data.len() == HDR => writeln!(out, "O H {}", hex(data)).unwrap(),
+            Op::Write { off, data } => writeln!(out, "O W {} {}", off, data.len()).unwrap(),
+            Op::SetLen(n) => writeln!(out, "O L {n}").unwrap(),
+            Op::Sync => writeln!(out, "O S").unwrap(),
+            _ => {}
+        }
+    }
+}
+
+/// the recorded stream of a run as protocol-level segments:
+///   P <tag> <header hex of the image the first segment starts from> <its length>
+///   G <kind>   O ...   E        per segment; operations outside every segment form "gap" segments
+fn emit_protocol(out: &mut Out, tag: &str, run: &Run) {
+    let Some(first) = run.segs.first() else { return };
+    let start = if first.kind == "create" { first.to } else { first.from };
+    let (img, _) = durable_at(run, start);
+    if img.len() < HDR {
+        return;
+    }
+    writeln!(out.protocol, "P {tag} {} {}", hex(&img[..HDR]), img.len()).unwrap();
+    let mut pos = start;
+    for seg in &run.segs {
+        if seg.kind == "create" {
+            continue;
+        }
+        if seg.from > pos {
+            writeln!(out.protocol, "G gap").unwrap();
+            write_proto_ops(&mut out.protocol, &run.ops[pos..seg.from]);
+            writeln!(out.protocol, "E").unwrap();
+        }
+        writeln!(out.protocol, "G {}", seg.kind).unwrap();
+        write_proto_ops(&mut out.protocol, &run.ops[seg.from..seg.to]);
+        writeln!(out.protocol, "E").unwrap();
+        pos = seg.to;
+    }
+    if run.error.is_none() && run.ops.len() > pos {
+        writeln!(out.protocol, "G gap").unwrap();
+        write_proto_ops(&mut out.protocol, &run.ops[pos..]);
+        writeln!(out.protocol, "E").unwrap();
+    }
+    out.stats.protocol_segments += run.segs.len() as u64;
+}
+
+/// the recovery run of one opened crash image as a one-segment protocol trace
+fn emit_open_protocol(out: &mut Out, tag: &str, image: &[u8], o: &Opened) {
+    if image.len() < HDR {
+        return;
+    }
+    writeln!(out.protocol, "P {tag} {} {}", hex(&image[..HDR]), image.len()).unwrap();
+    writeln!(out.protocol, "G {}", open_seg_kind_served(&image[..HDR], &o.served)).unwrap();
+    write_proto_ops(&mut out.protocol, &o.recovery_ops);
+    writeln!(out.protocol, "E").unwrap();
+    out.stats.protocol_segments += 1;
 }
 
 // ------------------------------------------------------------------------------------------ S2 windows
@@ -1690,6 +1843,7 @@ fn json_str(s: &str) -> String {
 
 fn new_out() -> Out {
     Out {
+        protocol: String::new(),
         windows: String::new(),
         recover_cases: String::new(),
         recover_impl: String::new(),
@@ -1704,6 +1858,7 @@ fn new_out() -> Out {
             recovery_images: 0,
             continuation_images: 0,
             windows: 0,
+            protocol_segments: 0,
             recover_cases: 0,
             nontrivial: BTreeSet::new(),
             markers: BTreeMap::new(),
@@ -1776,6 +1931,7 @@ fn process_history(seed: u64, h: usize, mut r: Rng, budget: usize, thorough: boo
         cx.out.stats.run_errors.push(e.clone());
     }
     crash_oracle(&mut cx, &mut r, &run, budget, 0, "main");
+    emit_protocol(&mut out, &format!("h{h}"), &run);
     // S2 material: the whole stream after creation, cut into windows
     if let Err(e) = emit_windows(&mut out, &cfg, &format!("h{h}"), &run.start_image, &run.ops, run.ready_pos) {
         out.stats.run_errors.push(format!("history {h}: summarising a durable image failed: {e}"));
@@ -1789,6 +1945,7 @@ fn process_history(seed: u64, h: usize, mut r: Rng, budget: usize, thorough: boo
 }
 
 fn merge(a: &mut Out, b: Out) {
+    a.protocol.push_str(&b.protocol);
     a.windows.push_str(&b.windows);
     a.recover_cases.push_str(&b.recover_cases);
     a.recover_impl.push_str(&b.recover_impl);
@@ -1802,6 +1959,7 @@ fn merge(a: &mut Out, b: Out) {
     s.recovery_images += t.recovery_images;
     s.continuation_images += t.continuation_images;
     s.windows += t.windows;
+    s.protocol_segments += t.protocol_segments;
     s.recover_cases += t.recover_cases;
     s.integrity_false += t.integrity_false;
     s.nontrivial.extend(t.nontrivial);
@@ -1875,6 +2033,7 @@ fn main() {
         merge(&mut out, o);
     }
     std::fs::write("windows.txt", &out.windows).unwrap();
+    std::fs::write("protocol.txt", &out.protocol).unwrap();
     std::fs::write("recover_cases.txt", &out.recover_cases).unwrap();
     std::fs::write("recover_impl.txt", &out.recover_impl).unwrap();
     let mut v = String::from("[\n");
@@ -1885,7 +2044,7 @@ fn main() {
     std::fs::write("violations.json", v).unwrap();
     let s = &out.stats;
     let mut j = String::from("{");
-    write!(j, "\"histories\":{},\"images\":{},\"recovery_images\":{},\"continuation_images\":{},\"windows\":{},\"recover_cases\":{},", s.histories, s.images, s.recovery_images, s.continuation_images, s.windows, s.recover_cases).unwrap();
+    write!(j, "\"histories\":{},\"images\":{},\"recovery_images\":{},\"continuation_images\":{},\"windows\":{},\"protocol_segments\":{},\"recover_cases\":{},", s.histories, s.images, s.recovery_images, s.continuation_images, s.windows, s.protocol_segments, s.recover_cases).unwrap();
     write!(j, "\"outcome_old\":{},\"outcome_new\":{},\"outcome_mid\":{},\"integrity_false\":{},\"distinct_nontrivial\":{},", s.outcome_old, s.outcome_new, s.outcome_mid, s.integrity_false, s.nontrivial.len()).unwrap();
     let map = |m: &BTreeMap<String, u64>| format!("{{{}}}", m.iter().map(|(k, v)| format!("{}:{}", json_str(k), v)).collect::<Vec<_>>().join(","));
     write!(j, "\"images_by_kind\":{},\"markers\":{},\"configs\":{},", map(&s.images_by_kind), map(&s.markers), map(&s.configs)).unwrap();
